@@ -1443,6 +1443,8 @@ func (rn *runner) replayLine(l string) {
 			panic(err)
 		}
 		rn.o.Case(l, hlib.Hex(bb.Bytes()))
+	case "lg":
+		rn.largeCase(l)
 	case "bxr":
 		rn.replayRange(l)
 	case "bxc":
@@ -1533,6 +1535,7 @@ func main() {
 	rn.rangeCases(r.Fork(), nRange)
 	rn.copyCases(r.Fork(), nCopy)
 	rn.towerCases(r.Fork(), nTower)
+	rn.largeCases(r.Fork(), cfg.Thorough())
 	o.Stat("clone_family_histories", nClone)
 	o.Stat("random_histories", nHist)
 	o.Stat("random_histories_api_level", nBare)
